@@ -368,6 +368,13 @@ impl World {
         res
     }
 
+    /// a search that does not answer (after `query_retry`): SQLite refuses the query when it meets an index entry
+    /// whose document record is gone — the state a 'delete' for other text than the indexed one leaves
+    fn failed_search(s: usize, t: u64, class: &str) -> (String, String) {
+        let sig = if class == "sql" { "search-fails-on-entry-without-document" } else { "search-fails" };
+        (sig.to_string(), format!("site {} search '{}' fails: {}", s, word(t), class))
+    }
+
     fn how_local(&self, s: usize, e: u64) -> How {
         if self.sites[s].engine_flag[e as usize] {
             How::LocalOn
@@ -631,7 +638,10 @@ impl World {
                         }
                         format!("nhits {}", fmt_nested(&hits)).trim_end().to_string()
                     }
-                    Err(e) => format!("err:{}", e),
+                    Err(e) => {
+                        oracle.push(Self::failed_search(s, t, &e));
+                        format!("err:{}", e)
+                    }
                 }
             }
             "qnall" => {
@@ -653,7 +663,10 @@ impl World {
                                 parts.push(format!("{}={}", t, fmt_nested(&hits).replace(';', "/")));
                             }
                         }
-                        Err(er) => parts.push(format!("{}=err:{}", t, er)),
+                        Err(er) => {
+                            oracle.push(Self::failed_search(s, t, &er));
+                            parts.push(format!("{}=err:{}", t, er))
+                        }
                     }
                 }
                 format!("nall {}", parts.join(";")).trim_end().to_string()
@@ -676,7 +689,10 @@ impl World {
                             .trim_end()
                             .to_string()
                     }
-                    Err(e) => format!("err:{}", e),
+                    Err(e) => {
+                        oracle.push(Self::failed_search(s, t, &e));
+                        format!("err:{}", e)
+                    }
                 }
             }
             "slots" => {
@@ -726,7 +742,10 @@ impl World {
                                     ));
                                 }
                             }
-                            Err(er) => parts.push(format!("{}:{}:err:{}", e, t, er)),
+                            Err(er) => {
+                                oracle.push(Self::failed_search(s, t, &er));
+                                parts.push(format!("{}:{}:err:{}", e, t, er))
+                            }
                         }
                     }
                 }
